@@ -146,7 +146,8 @@ func ruleAlpine(p *Prog, r *Report) {
 				r.Und("R-ALPINE-SUFFIX", key, p.FnPos(st), "suffix-list comparator: "+oof)
 			} else {
 				nameK, numK, presK := "", "", "present:"+seq
-				for k, ti := range c.terms {
+				for _, k := range c.termKeys() {
+					ti := c.terms[k]
 					if !strings.HasPrefix(k, seq+"[i].") || len(ti.base) != 0 {
 						continue
 					}
@@ -275,7 +276,8 @@ func ruleAlpine(p *Prog, r *Report) {
 		}
 		// value and text terms of a component
 		valK, txtK := "", ""
-		for k, ti := range c.terms {
+		for _, k := range c.termKeys() {
+			ti := c.terms[k]
 			if !strings.HasPrefix(k, seq+"[i].") || len(ti.base) != 0 {
 				continue
 			}
